@@ -12,7 +12,7 @@ SYS_FLAGS = [1, 2, 3, 4, 5]
 
 class TraceGen:
     def __init__(self, rng, run: StoreRun, sessions, *, boxes=(1,), idle=True,
-                 readonly_sessions=(), weights=None) -> None:
+                 readonly_sessions=(), weights=None, flipflop: float = 0.0) -> None:
         self.rng = rng
         self.run = run
         self.sessions = list(sessions)
@@ -20,6 +20,7 @@ class TraceGen:
         self.idle_ok = idle
         self.readonly_sessions = set(readonly_sessions)
         self.next_content = 100
+        self.flipflop = flipflop   # share of STOREs that toggle \\Flagged/\\Seen on the first messages
         self.w = {'append': 9, 'store': 16, 'expunge': 10, 'uidexpunge': 5, 'copy': 5, 'move': 7,
                   'fetch': 14, 'search': 8, 'noop': 10, 'check': 3, 'touch': 2, 'close': 1,
                   'idle': 3, 'select': 2, 'deliver': 2}
@@ -98,7 +99,7 @@ class TraceGen:
                 return mx + 1
             if r < 0.85:
                 return 1
-            return rng.randint(100, mx + 2)
+            return rng.randint(100 if mx >= 100 else 1, mx + 2)
         out = []
         for _ in range(1 if rng.random() < 0.6 else rng.randint(2, 3)):
             if rng.random() < 0.45:
@@ -176,6 +177,13 @@ class TraceGen:
                 msgs.append((self.flags(), self.next_content))
             return ('cmd', s, ('append', self.dest_box(s) if rng.random() < 0.5 else
                                (self._boxnum(sel) if sel is not None else 1), msgs, None))
+        if k == 'store' and rng.random() < self.flipflop:
+            # the same flag of the same few messages goes on and off in several sessions:
+            # a flag value a session has seen (or silenced) before comes back later
+            n = len(sel._messages._sorted) if sel is not None else 1
+            return ('cmd', s, ('store', [rng.randint(1, max(1, min(3, n)))], False,
+                               rng.choice(['add', 'delete']), [rng.choice([4, 5])],
+                               rng.random() < 0.5))
         if k == 'store':
             by_uid = rng.random() < 0.3
             sset = self.uid_set(s) if by_uid else self.seq_set(s)
